@@ -2,7 +2,7 @@
 """Run every seeded change against the check of its property (quick tier) and write seeded/MATRIX.md.
 
   tools/matrix.py [ID ...]      # default: all seeded changes
-Each change is applied to /repo, the check is run, the change is undone (tools/seed.py run)."""
+Each change is applied to a scratch worktree of /repo and the check is run against that worktree (tools/seed.py run)."""
 import json
 import subprocess
 import sys
@@ -56,7 +56,6 @@ def main():
            "Each change compiles, passes the repository's 112 tests and breaks the named property (demo.py).", "",
            "| change | result | what it does |", "|---|---|---|"]
     out += [f"| {a} | {b} | {c} |" for a, b, c in rows]
-    subprocess.run(["git", "-C", "/repo", "checkout", "--", "."])
     report()
 
 
